@@ -272,3 +272,145 @@ def fst_pypi_obligations(ctx, facts, key, lowercaser_key, rule="FST-PYPI"):
     ctx.ob(rule, "otherwise the name is lower-cased by the nuget normaliser (equivalent: no dash char => every char maps to lower(c))", okf, fn=key, site=site, detail=str([(b, [models.show_canon(c) for c in a]) for b, a, _ in fast]))
     # lower-case mappings never produce a dash char (needed for idempotence, C10) -- Unicode table fact
     return table
+
+
+# ---------------------------------------------------------------------------------------------- generic transducer idempotence
+def fst_generic(facts, key):
+    """Extract the char-loop transducer of `key` in a generic form:
+    {"init": state, "trans": [(class_bitset, frozenset(pre_states), outputs, next_state|None)], "states": set}
+    outputs: list of ("const", ch) | ("lower",)   (emit the lower-case mapping of the char read)."""
+    summ = boolsum.Summarizer(facts)
+    body = facts.body(key)
+    loop = scanact.char_loop(facts, body)
+    st, paths_, is_elem, exit_none = scanact.loop_transitions(facts, summ, body, loop)
+    if len(st) != 1:
+        raise AnchorError("transducer: expected one loop-carried flag", key)
+    S = next(iter(st))
+    states = set(v for v in st[S]["values"])
+    inits = [scanact.const_state_value(strip(body._rv_term(d[3]))) for d in body.defs()[S] if body.dominates(d[0], loop["header"]) and d[0] not in loop["blocks"]]
+    if len(inits) != 1:
+        raise AnchorError("transducer: initial state not unique", key)
+    trans = []
+    for p in paths_:
+        if p["exit"] != "continue":
+            raise AnchorError("transducer: a loop path leaves the loop early", key)
+        cs = scanact.cond_set(p["conds"], facts)
+        pres = p["pre"].get(S)
+        if pres:
+            if not all(x[0] == "in" for x in pres):
+                raise AnchorError("transducer: state test not understood", key)
+            pre = frozenset(set.intersection(*[set(x[1]) for x in pres]))
+        else:
+            pre = frozenset(states)
+        outs = []
+        for e in p["effects"]:
+            pth, tgt, args, _ = e
+            if pth.endswith("::push") and models.cchar(args[1]) is not None:
+                outs.append(("const", ord(models.cchar(args[1]))))
+            elif pth.endswith("::extend") and args[1][0] == "call" and args[1][1].endswith("::to_lowercase") and is_elem(args[1][2][0]):
+                outs.append(("lower",))
+            elif pth.endswith("::push") and is_elem(args[1]):
+                outs.append(("same",))
+            elif pth.endswith("deref_mut"):
+                continue
+            else:
+                raise AnchorError("transducer: effect %s not understood" % pth, key)
+        trans.append((cs, pre, tuple(outs), p["assign"].get(S)))
+    return {"init": inits[0], "trans": trans, "states": states}
+
+
+def image_lower(bits_):
+    """bitset of { chars of lower(c) : c in bits_ } and whether every c in bits_ maps to a single char"""
+    lc = boolsum.set_of("lower_changes")
+    out = bits_ & ~lc
+    ch_ = bits_ & lc
+    c = 0
+    v = ch_
+    multi = False
+    while v:
+        if not (v & 0xFFFFFFFFFFFFFFFF):
+            v >>= 64
+            c += 64
+            continue
+        if v & 1:
+            lo = chr(c).lower()
+            if len(lo) != 1:
+                multi = True
+            for x in lo:
+                out |= 1 << ord(x)
+        v >>= 1
+        c += 1
+    return out, multi
+
+
+def transducer_idempotent(fst):
+    """Is T(T(x)) = T(x) for all x?  Equivalent: T is the identity on its own range.  The range is described by the output
+    symbols reachable in the transducer; a product exploration checks that the second pass echoes every symbol.
+    Returns (ok, detail)."""
+    lc = boolsum.set_of("lower_changes")
+    trans = fst["trans"]
+    # symbols of the range: ("const", ch) and ("lowerof", class_bits)
+    # product state: (state of pass 1, state of pass 2)
+    start = (fst["init"], fst["init"])
+    seen = {start}
+    work = [start]
+    while work:
+        s1, s2 = work.pop()
+        for (cs, pre, outs, nxt) in trans:
+            if s1 not in pre or cs == 0:
+                continue
+            n1 = nxt if nxt is not None else s1
+            cur2 = s2
+            for o in outs:
+                # the symbol written by pass 1
+                if o[0] == "const":
+                    sym_bits = 1 << o[1]
+                elif o[0] == "lower":
+                    sym_bits, _ = image_lower(cs)
+                else:
+                    sym_bits = cs
+                # pass 2 reads one char from sym_bits in state cur2: every applicable transition must echo it and agree on the next state
+                nexts = set()
+                for (cs2, pre2, outs2, nxt2) in trans:
+                    inter = sym_bits & cs2
+                    if cur2 not in pre2 or inter == 0:
+                        continue
+                    if len(outs2) != 1:
+                        return False, "second pass on %s of the first pass emits %s" % (describe(o, cs), [describe(x, cs2) for x in outs2])
+                    o2 = outs2[0]
+                    if o2[0] == "const":
+                        if inter != (1 << o2[1]):
+                            return False, "second pass rewrites %s into %s" % (boolsum.set_to_ranges(inter, 4), chr(o2[1]))
+                    elif o2[0] == "lower":
+                        if inter & lc:
+                            return False, "second pass lower-cases chars of the first pass' output that are not lower-case fixed points: %s" % boolsum.set_to_ranges(inter & lc, 4)
+                    nexts.add(nxt2 if nxt2 is not None else cur2)
+                if not nexts:
+                    return False, "second pass has no transition for %s" % describe(o, cs)
+                if len(nexts) != 1:
+                    # several classes, several next states: explore all
+                    pass
+                cur_candidates = nexts
+                # continue the remaining outputs from every candidate (outputs lists are short)
+                if len(cur_candidates) == 1:
+                    cur2 = next(iter(cur_candidates))
+                else:
+                    for cnd in cur_candidates:
+                        stt = (n1, cnd)
+                        if stt not in seen:
+                            seen.add(stt)
+                            work.append(stt)
+                    cur2 = next(iter(cur_candidates))
+            stt = (n1, cur2)
+            if stt not in seen:
+                seen.add(stt)
+                work.append(stt)
+    return True, "%d product states explored; every symbol of the range is echoed by the second pass" % len(seen)
+
+
+def describe(o, cs):
+    if o[0] == "const":
+        return repr(chr(o[1]))
+    if o[0] == "lower":
+        return "lower(c) for c in {%s}" % boolsum.set_to_ranges(cs, 4)
+    return "c in {%s}" % boolsum.set_to_ranges(cs, 4)
